@@ -49,7 +49,7 @@ def _connect(config):
     kw = {}
     if CTL["uri"] or str(path).startswith("file:"):
         kw["uri"] = True
-    db = VerifSqlite(path, pragmas={"foreign_keys": 0, "busy_timeout": 20000}, check_same_thread=False,
+    db = VerifSqlite(path, pragmas={"foreign_keys": 0, "busy_timeout": 20000, "synchronous": 0}, check_same_thread=False,
                      timeout=20, **kw)
     return db
 
